@@ -189,8 +189,49 @@ def run_js_shard(sh, res):
     res.sample({'js_roundtrip_tables': len(tables), 'dlm': dlm, 'policy': pol})
 
 
+def run_stdout_env_shard(sh, res):
+    """the writer over the process's own text stdout (an io.TextIOWrapper whose encoding comes from the environment), in child interpreters under hostile environments:
+    with encoding='utf-8' the bytes that reach the pipe are UTF-8 and read back to the table, whatever the locale / PYTHONIOENCODING says"""
+    import os, sys, json, subprocess
+    tables = [[['\u00e9', '\u20ac'], ['x', 'caf\u00e9,"q"']], [['plain', 'ascii']], [['\U0001F600', '\u0436\n2']], [['\xff\xe0', '\xa0']]]
+    code = ("import sys, json; sys.path.insert(0, %r); from vf import tree; rc = tree.csvmod(); spec = json.loads(sys.argv[1]); "
+            "w = rc.CSVWriter(sys.stdout, False, spec['enc'], ',', spec['pol']); [w.write(list(r)) for r in spec['table']]; w.finish(); sys.stdout.flush()" % core.VERIF)
+    for envo, unset in sh['envs']:
+        env = dict(os.environ)
+        for k in unset:
+            env.pop(k, None)
+        env.update(envo)
+        env['PYTHONWARNINGS'] = 'ignore'
+        for t in tables:
+            for pol in ('quoted', 'quoted_rfc'):
+                for enc in ('utf-8', 'latin-1'):
+                    if enc == 'latin-1' and any(ord(c) > 255 for r in t for f in r for c in f):
+                        continue
+                    if pol == 'quoted' and any('\n' in f for r in t for f in r):
+                        continue
+                    p = subprocess.run([sys.executable, '-c', code, json.dumps({'enc': enc, 'pol': pol, 'table': t})], stdout=subprocess.PIPE, stderr=subprocess.PIPE, env=env, timeout=120)
+                    res.evaluations += 1
+                    res.traces += 1
+                    res.states += 1
+                    case = {'kind': 'stdout-under-environment', 'table': t, 'policy': pol, 'encoding': enc, 'process_environment': envo}
+                    got = None
+                    if p.returncode == 0:
+                        try:
+                            got = refcsv.ref_read(p.stdout.decode(enc), ',', pol).records
+                        except Exception as e:
+                            got = 'undecodable output: %r' % p.stdout[:60]
+                    if p.returncode != 0 or got != t:
+                        res.violation('roundtrip-mismatch', case, {'records': t}, {'exit': p.returncode, 'records': got, 'stderr': p.stderr.decode('utf-8', 'replace')[-300:]})
+                    else:
+                        res.feat('stdout_under_environment_cases')
+                        res.nontrivial += 1
+
+
 def run_shard(sh):
     res = core.Result()
+    if sh['kind'] == 'stdout_env':
+        run_stdout_env_shard(sh, res)
+        return res
     if sh['kind'] == 'js':
         run_js_shard(sh, res)
         return res
@@ -324,7 +365,11 @@ def main(tier, seed):
     for cfg in configs():
         if cfg[0] != 'monocolumn':
             shards.append({'kind': 'js', 'cfg': cfg, 'o': o, 'pair_limit': 73 if tier == 'thorough' else 24, 'bigfile': cfg in (('quoted', ','), ('simple', '\t'))})
-    shards.sort(key=lambda s: {'pairs3': 0, 'pairs2': 1, 'shape': 2, 'len3': 3, 'latin1': 4, 'long': 2, 'js': 1, 'manylines': 3}[s['kind']])
+    hostile = [({'LC_ALL': 'C', 'PYTHONUTF8': '0', 'PYTHONCOERCECLOCALE': '0'}, ('LANG', 'LC_CTYPE', 'PYTHONIOENCODING')), ({'PYTHONIOENCODING': 'latin-1', 'LC_ALL': 'C.UTF-8'}, ('LANG',)),
+               ({'LC_ALL': 'C.UTF-8'}, ('LANG', 'PYTHONIOENCODING')), ({'PYTHONIOENCODING': 'utf-16'}, ())]
+    for h in hostile:
+        shards.append({'kind': 'stdout_env', 'envs': [h]})
+    shards.sort(key=lambda s: {'stdout_env': 1, 'pairs3': 0, 'pairs2': 1, 'shape': 2, 'len3': 3, 'latin1': 4, 'long': 2, 'js': 1, 'manylines': 3}[s['kind']])
     res = core.run_shards('vf.checks.c10', shards)
     return core.finish(PID, tier, seed, res, t0,
         rule='tables over the field alphabet {quote, delimiter characters, space, tab, CR, LF, ordinary, non-ASCII}: all 1-2 field rows over fields <= 2 chars, fields of length 3-4 (thorough 5-6; and all 2-field rows over fields <= 3) '
@@ -332,7 +377,7 @@ def main(tier, seed):
              'non-trivial = representable by the reference writer/reader pair (then the real pair must round-trip with no warnings)',
         assumptions=['representable is decided by RefCSV (ref_read(ref_write(t)) == t, CR/CRLF normalised to LF under quoted_rfc)', 'no leading BOM character in the first field'],
         extra={'configurations': len(configs()), 'ordinary': o},
-        min_features={'representable': 50000, 'unrepresentable': 10000, 'rfc_linebreak_fields': 1000, 'delimiter_in_simple_field': 1000, 'latin1_cases': 1000, 'linesep_encoding_cases': 1000, 'long_field_cases': 500, 'js_roundtrips': 5000})
+        min_features={'representable': 50000, 'unrepresentable': 10000, 'rfc_linebreak_fields': 1000, 'delimiter_in_simple_field': 1000, 'latin1_cases': 1000, 'linesep_encoding_cases': 1000, 'long_field_cases': 500, 'js_roundtrips': 5000, 'stdout_under_environment_cases': 30})
 
 
 def replay(rep):
